@@ -81,7 +81,7 @@ def extraction(ctx, case):
             elif c == 'f':
                 a['value'] = ctx.fresh_int('v%d' % k, -2 ** 31, 2 ** 31)
             elif c == 's':
-                a['value'] = ctx.choose(['text %d' % k, '', None], 'str%d' % k)
+                a['value'] = ctx.choose(['text %d' % k, '', None, '\u00dcberraschung \u2013 caf\u00e9 \u8a2d\u5b9a %d' % k], 'str%d' % k)     # Wayland strings are UTF-8
             elif c == 'o':
                 a['null'] = ctx.choose([False, True], 'null%d' % k)
                 a['id'] = ctx.fresh_int('v%d' % k, 1, 2 ** 32)
@@ -368,7 +368,7 @@ def log_agreement(ctx, case):
             if c in 'iu': a['value'] = ctx.choose([0, 7, 4294967295] if c == 'u' else [0, -1, 2147483647, -2147483648], 'v%d' % k)
             elif c == 'h': a['value'] = ctx.choose([0, 63], 'v%d' % k)
             elif c == 'f': a['value'] = ctx.choose([0, 384, -640, 1, -1, 2147483647, -2147483648], 'v%d' % k)
-            elif c == 's': a['value'] = ctx.choose(['plain', 'a, b (c) [d]', ''], 'v%d' % k)
+            elif c == 's': a['value'] = ctx.choose(['plain', 'a, b (c) [d]', '', '\u041d\u0430\u0441\u0442\u0440\u043e\u0439\u043a\u0438 \u2013 caf\u00e9'], 'v%d' % k)
             elif c == 'o':
                 a['null'] = ctx.choose([False, True], 'null%d' % k); a['id'] = ctx.choose([3, 4278190081], 'v%d' % k); a['type'] = 'wl_surface'
             elif c == 'n':
